@@ -17,7 +17,7 @@ CHECKS = {
    text='For every dimension: the in-place LDL^T sweeps equal the recursive elimination operation for operation (any arithmetic), the '
         'elimination solves A x = b exactly when no pivot vanishes, strict dominance AND symmetric positive definiteness each make every pivot positive (so A x = b for every SPD system, C14_spd_solve_correct), and repeated solves '
         'are identical; the cyclic Sherman-Morrison solve returns the solution of the cyclic system for every n >= 2 when the modified matrix factorises '
-        'and 1 + v.z != 0 (C14_cyclic_solve_correct), and both premises follow from positive definiteness of the cyclic matrix for every dimension (C14_spd_cyclic_solve_correct). PARTIAL: floating-point backward stability is measured by the exact-rational correspondence '
+        'and 1 + v.z != 0 (C14_cyclic_solve_correct), and both premises follow from positive definiteness of the cyclic matrix for every dimension (C14_spd_cyclic_solve_correct), which covers every row-wise strictly diagonally dominant cyclic matrix (C14_dominant_cyclic_is_spd). PARTIAL: floating-point backward stability is measured by the exact-rational correspondence '
         '(residual of the real result evaluated exactly), not proved.',
    note='Trusted: Coq kernel; R axioms sig_forall_dec, functional_extensionality_dep; hand model TridiagDefs.v tied by K-solve; extraction with ExtrOcamlBasic+ExtrOcamlZBigInt; parametricity between the R and Q instances.',
    design='5/C14'),
